@@ -185,6 +185,7 @@ def isAccOf (f : Field) (w : Bool) (e : Ev) : Bool :=
   | _ => false
 
 def isJoin (e : Ev) : Bool := match e.kind with | .join => true | _ => false
+def isSignal (e : Ev) : Bool := match e.kind with | .signal => true | _ => false
 
 def callsFn (t : List Entry) (name : String) (e : Ev) : Bool :=
   match e.kind with
@@ -199,17 +200,19 @@ def lastIdx (p : Ev → Bool) (es : List Ev) : Option Nat :=
   | some i => some (es.length - 1 - i)
   | none => none
 
-/-- `MHD_stop_daemon`: the shutdown flag is written before the daemon thread is joined, the join
-    holds no lock, and the lists are closed by `close_all_connections` (called directly in external
+/-- `MHD_stop_daemon`: the shutdown flag is written before the inter-thread channel is signalled
+    (otherwise the wake-up could be consumed before the flag is visible), the signal comes before
+    the daemon thread is joined, the join holds no lock, and the lists are closed by `close_all_connections` (called directly in external
     mode, otherwise by the joined thread);
     `MHD_polling_thread`: `close_all_connections` is called after the last test of the flag;
     `close_all_connections`: ends with `MHD_cleanup_connections`, closes via `close_connection`. -/
 def stopSequenceOk (t : List Entry) : Bool :=
   match findFn t "MHD_stop_daemon", findFn t "MHD_polling_thread", findFn t "close_all_connections" with
   | some st, some pt, some ca =>
-    (match firstIdx (isAccOf .shutdown true) st.events, firstIdx isJoin st.events with
-     | some w, some j => decide (w < j)
-     | _, _ => false)
+    (match firstIdx (isAccOf .shutdown true) st.events, firstIdx isSignal st.events, firstIdx isJoin st.events,
+           lastIdx isSignal st.events with
+     | some w, some sg, some j, some sgl => decide (w < sg) && decide (sg < j) && decide (sgl < j)
+     | _, _, _, _ => false)
     && st.events.any (callsFn t "close_all_connections")
     && (match lastIdx (isAccOf .shutdown false) pt.events, firstIdx (callsFn t "close_all_connections") pt.events with
         | some r, some c => decide (r < c)
